@@ -6,12 +6,12 @@ OBS = ["cfg", "tree", "shape", "dest", "attrs"]
 
 
 def config(quick):
-    """The configuration whose complete state graph is replayed (2 loggers so that the product
-    of per-logger configurations stays replayable)."""
+    """(A) tree, level, format, skip, writers over 2 loggers: the complete state graph is replayed
+    (2 loggers so that the product of per-logger configurations stays replayable)."""
     opt = lambda k, a, b=0: dict(k=k, a=a, b=b)
-    sa = {"Level": [(2, 0)], "JSONMode": [(1, 0)], "Attrs": [(1, 1)], "Skip": [(1, 0)], "Writer": [(1, 0)]}
+    sa = {"Level": [(2, 0)], "Skip": [(1, 0), (2, 0)], "Writer": [(1, 0)]}
     if not quick:
-        sa.update({"Level": [(2, 0), (7, 0)], "ColorMode": [(3, 0)], "Attrs": [(1, 1), (1, 2)], "ErrorWriter": [(2, 0)]})
+        sa.update({"Level": [(2, 0), (7, 0)], "JSONMode": [(1, 0)], "ColorMode": [(3, 0)], "ErrorWriter": [(2, 0)]})
     return dict(
         max_loggers=2, init_level=5, names=["a"], bool_lists=BOOL_LISTS, layouts=[""],
         opt_lists=[[], [opt("Level", 2)], [opt("JSONMode", 1), opt("Attrs", 2, 7)], [opt("Writer", 1)]],
@@ -19,13 +19,33 @@ def config(quick):
     )
 
 
+def config_attrs(quick):
+    """(B) attribute lists over 2 loggers, every way of giving a logger an attribute."""
+    opt = lambda k, a, b=0: dict(k=k, a=a, b=b)
+    sa = {"Attrs": [(1, 1), (3, 2)], "Attrs1": [(2, 1), (1, 2)], "SetKV": [(1, 3)]}
+    if not quick:
+        sa = {"Attrs": [(1, 1), (3, 2)], "Attrs1": [(2, 1), (1, 2)], "SetKV": [(1, 3), (2, 4)]}
+    return dict(
+        max_loggers=2, init_level=5, names=["a"], bool_lists=BOOL_LISTS, layouts=[""],
+        opt_lists=[[], [opt("Attrs1", 2, 1)], [opt("SetKV", 1, 3), opt("Attrs", 1, 1)], [opt("Attrs1", 2, 1), opt("Attrs1", 2, 1)]],
+        setter_args=sa, acts=["Set", "With", "New"], probe_sevs=[4], max_list=2 if quick else 3,
+    )
+
+
+def config_skip(quick):
+    """(C) WithSkip keeps one child per n: 3-4 loggers, skip counts set and re-set."""
+    return dict(
+        max_loggers=3 if quick else 4, init_level=5, names=["a"], bool_lists=BOOL_LISTS, layouts=[""], opt_lists=[[]],
+        setter_args={"Skip": [(1, 0), (2, 0)]}, acts=["Set", "With", "New"], probe_sevs=[4], max_list=1,
+    )
+
+
 def big_config(quick):
     """Checked exhaustively by TLC only (too large to replay transition by transition)."""
     c = config(True)
     c["max_loggers"] = 3
-    if not quick:
-        c["setter_args"]["ColorMode"] = [(3, 0)]
-        c["setter_args"]["ErrorWriter"] = [(2, 0)]
+    c["setter_args"]["JSONMode"] = [(1, 0)]
+    c["setter_args"]["Attrs"] = [(1, 1)]
     return c
 
 
@@ -36,6 +56,7 @@ def rand_config():
         "Level": [(v, 0) for v in (0, 2, 3, 4, 5, 6, 7, 8, 9, 11)],
         "JSONMode": [(1, 0), (2, 0), (3, 0)], "ColorMode": [(1, 0), (2, 0), (3, 0)],
         "Attrs": [(k, v) for k in (1, 2, 3, 4) for v in (1, 2, 3)],
+        "Attrs1": [(k, v) for k in (1, 2, 5) for v in (1, 2)], "SetKV": [(k, v) for k in (2, 3, 6) for v in (4, 5)],
         "Skip": [(0, 0), (1, 0), (2, 0), (3, 0)],
         "Writer": [(1, 0), (2, 0), (3, 0)], "ErrorWriter": [(1, 0), (2, 0), (4, 0)],
         "AddWriter": [(1, 0), (2, 0), (3, 0)], "AddErrorWriter": [(2, 0), (4, 0)],
@@ -61,7 +82,11 @@ def run(ctx, replay):
     corelib.run_core(ctx, c, invariants=["OneFormat", "TreeOK", "RouteOK"],
                      properties=["Isolation", "TreeMonotone", "DbgSticky"], obs=OBS,
                      rand_count=40 if ctx.quick() else 600, rand_depth=30 if ctx.quick() else 50,
-                     rand_loggers=10 if ctx.quick() else 20, rand_cfg=rand_config())
+                     rand_loggers=10 if ctx.quick() else 20, rand_cfg=rand_config(), tag="tree")
+    corelib.run_core(ctx, config_attrs(ctx.quick()), invariants=["TreeOK"], properties=["Isolation"], obs=["cfg", "attrs"],
+                     rand_count=0, rand_depth=0, rand_loggers=3, tag="attrs")
+    corelib.run_core(ctx, config_skip(ctx.quick()), invariants=["TreeOK"], properties=["Isolation", "TreeMonotone"],
+                     obs=["cfg", "tree"], rand_count=0, rand_depth=0, rand_loggers=4, tag="skip")
     ctx.assumptions += ["generated (anonymous) logger names never collide (26^-6 per pair)",
                         "attribute probe uses LogAttrs at Always severity; loggers at level Off or with an empty writer list show no attributes"]
     return ctx.finish(rule="every transition of the exhaustive MC graph (3 loggers; New/NewDetached/With*/Set* on level, format, "
